@@ -44,6 +44,7 @@ func runC23(c *Ctx) {
 	c.Rule("cause-decision", "replicationErrors.Cause tail == spec", 1)
 	c.Rule("status-table", "errNotReady/errUnavailable -> retryable, errConflict -> conflict in every handler", 12)
 	c.Rule("request-cause-order", "writeErrors.Cause prefers retryable causes", 1)
+	c.Rule("early-return-only-when-determined", "canReturnEarly: a series is decided iff successes >= success threshold or conflict failures >= failure threshold", 2)
 	p := c.Load("pkg/receive")
 	if p == nil {
 		return
@@ -73,7 +74,7 @@ func runC23(c *Ctx) {
 			adds := false
 			ast.Inspect(ifs.Body, func(m ast.Node) bool {
 				if call, ok := m.(*ast.CallExpr); ok {
-					if sel, ok := unparen(call.Fun).(*ast.SelectorExpr); ok && sel.Sel.Name == "Add" && strings.Contains(exprString(sel.X), "writeErrors") {
+					if sel, ok := unparen(call.Fun).(*ast.SelectorExpr); ok && sel.Sel.Name == "Add" && strings.HasSuffix(strings.TrimPrefix(shortType(info.TypeOf(sel.X)), "*"), "receive.writeErrors") {
 						adds = true
 					}
 				}
@@ -124,6 +125,10 @@ func runC23(c *Ctx) {
 		}
 	}
 
+	if ff != nil {
+		runC23Early(c, p, ff)
+	}
+
 	// (2) Cause decision tail
 	if cf := p.Func(rel, "replicationErrors", "Cause"); cf == nil {
 		c.Incomplete("cause-decision", rel+".(*replicationErrors).Cause", "", "function not found")
@@ -144,15 +149,33 @@ func runC23(c *Ctx) {
 			// `exp := expErrs[0]` bound in if-init: resolve exp.count / exp.err textually
 			x := newE9(p, cf, func(e ast.Expr, text string) string {
 				t := strings.ReplaceAll(text, " ", "")
+				rn := namesOf(cf).Recv
+				// the most frequent cause: an element [0] of the sorted list, directly or through a local bound to it
+				isTop := func(x ast.Expr) bool {
+					x = unparen(x)
+					if id, ok := x.(*ast.Ident); ok {
+						if o := objOf(info, id); o != nil {
+							if d, ok := unparenOrNil(singleDef(cf, info, o)).(*ast.IndexExpr); ok {
+								x = d
+							}
+						}
+					}
+					ix, ok := x.(*ast.IndexExpr)
+					return ok && canon(ix.Index) == "0"
+				}
+				if sel, ok := unparen(e).(*ast.SelectorExpr); ok && isTop(sel.X) {
+					switch sel.Sel.Name {
+					case "count":
+						return "cnt"
+					case "err":
+						return "RET_DOMINANT"
+					}
+				}
 				switch {
-				case t == "exp.count" || t == "expErrs[0].count":
-					return "cnt"
-				case t == "es.threshold":
+				case t == rn+".threshold":
 					return "T"
-				case t == "len(es.errs)":
+				case t == "len("+rn+".errs)":
 					return "n"
-				case t == "exp.err" || t == "expErrs[0].err":
-					return "RET_DOMINANT"
 				case t == "errUnavailable":
 					return "RET_UNAVAILABLE"
 				case t == "nil":
@@ -320,4 +343,150 @@ func runC23(c *Ctx) {
 		c.Check(okOrder && firstWins, "request-cause-order", rel+".(*writeErrors).Cause", p.Pos(wc.Decl.Pos()), "conflict-preferred-over-retryable:"+strings.Join(order, ","),
 			"writeErrors.Cause must prefer errUnavailable/errNotReady over errConflict (listed order: "+strings.Join(order, ",")+", first-non-zero-wins loop: "+boolStr(firstWins)+")")
 	}
+}
+
+func unparenOrNil(e ast.Expr) ast.Expr {
+	if e == nil {
+		return nil
+	}
+	return unparen(e)
+}
+
+// runC23Early: the answer must not depend on the order in which replicas respond. fanoutForward may
+// stop waiting early only when every series' outcome can no longer change: it reached the success
+// threshold, or its CONFLICT failures alone reached the failure threshold (then the dominant cause is
+// settled). Failures of other kinds must not end the wait — a later conflict response could still
+// turn a retryable answer into a permanent one. The roles of the counters are taken from how
+// fanoutForward updates them, the per-series decision of canReturnEarly is evaluated for all small
+// counter values.
+func runC23Early(c *Ctx, p *Prog, ff *Fn) {
+	const rel, rule = "pkg/receive", "early-return-only-when-determined"
+	cre := p.Func(rel, "", "canReturnEarly")
+	if cre == nil {
+		c.Incomplete(rule, rel+".canReturnEarly", "", "function not found")
+		return
+	}
+	info := ff.Info()
+	// roles in fanoutForward
+	role := map[types.Object]string{}
+	ast.Inspect(ff.Body(), func(n ast.Node) bool {
+		switch v := n.(type) {
+		case *ast.AssignStmt:
+			if len(v.Lhs) == 1 && len(v.Rhs) == 1 {
+				if call, ok := unparen(v.Rhs[0]).(*ast.CallExpr); ok {
+					if f := calleeOf(info, call); f != nil && f.Name() == "writeQuorum" {
+						role[objOf(info, v.Lhs[0])] = "st"
+					}
+				}
+			}
+		case *ast.CallExpr:
+			if f := calleeOf(info, v); f != nil && f.Name() == "newReplicationErrors" && len(v.Args) > 0 {
+				role[objOf(info, v.Args[0])] = "ft"
+			}
+		case *ast.IncDecStmt:
+			ix, ok := unparen(v.X).(*ast.IndexExpr)
+			if !ok || v.Tok != token.INC {
+				return true
+			}
+			o := objOf(info, ix.X)
+			if o == nil {
+				return true
+			}
+			kind := "f" // counted for every failed response
+			for _, g := range guardsOf(p, ff, v) {
+				refine(g.Cond, g.Pol, func(atom ast.Expr, t bool) {
+					if x, nonNil, ok := nilTest(info, atom); ok && isErrorType(info.TypeOf(x)) && nonNil != t {
+						kind = "s" // under err == nil
+					}
+					if id, ok := unparen(atom).(*ast.Ident); ok && t {
+						if d := singleDef(ff, info, objOf(info, id)); d != nil && strings.Contains(canon(d), "isConflict(") {
+							kind = "c"
+						}
+					}
+				})
+			}
+			if prev, seen := role[o]; !seen || prev == "f" {
+				role[o] = kind
+			}
+		}
+		return true
+	})
+	var call *ast.CallExpr
+	ast.Inspect(ff.Body(), func(n ast.Node) bool {
+		if cl, ok := n.(*ast.CallExpr); ok && calleeOf(info, cl) == cre.Obj && cre.Obj != nil {
+			call = cl
+		}
+		return true
+	})
+	if call == nil {
+		c.Incomplete(rule, rel+".canReturnEarly", p.Pos(ff.Decl.Pos()), "call from fanoutForward not found")
+		return
+	}
+	names := namesOf(cre)
+	paramRole := map[string]string{}
+	for i, a := range call.Args {
+		if r, ok := role[objOf(info, a)]; ok && i < len(names.Params) {
+			paramRole[names.Params[i]] = r
+		}
+	}
+	got := map[string]bool{}
+	for _, r := range paramRole {
+		got[r] = true
+	}
+	if !got["s"] || !got["c"] || !got["st"] || !got["ft"] {
+		c.Incomplete(rule, rel+".canReturnEarly", p.Pos(call.Pos()), fmt.Sprintf("roles of the arguments not recognised (%v)", paramRole))
+		return
+	}
+	var loop *ast.RangeStmt
+	for _, st := range cre.Body().List {
+		if r, ok := st.(*ast.RangeStmt); ok {
+			loop = r
+		}
+	}
+	if loop == nil || loop.Key == nil {
+		c.Incomplete(rule, rel+".canReturnEarly", p.Pos(cre.Decl.Pos()), "loop over the series not found")
+		return
+	}
+	key := canon(loop.Key)
+	x := newE9(p, cre, func(e ast.Expr, text string) string {
+		t := strings.ReplaceAll(text, " ", "")
+		if ix, ok := unparen(e).(*ast.IndexExpr); ok && canon(ix.Index) == key {
+			return paramRole[canon(ix.X)]
+		}
+		return paramRole[t]
+	})
+	atoms := []string{"s", "c", "st", "ft"}
+	if got["f"] {
+		atoms = append(atoms, "f")
+	}
+	n, cx, err := e9Table(atoms, intRange(0, 2),
+		func(env map[string]int64) bool {
+			if env["st"] < 1 || env["ft"] < 1 {
+				return false
+			}
+			if f, ok := env["f"]; ok && env["c"] > f {
+				return false
+			}
+			return true
+		},
+		func(env map[string]int64) (int64, error) {
+			v, err := x.evalBody(loop.Body.List, env)
+			if err != nil {
+				return 0, err
+			}
+			if v.isNone() || v == e9Cont {
+				return 1, nil // the series does not stop the early return: determined
+			}
+			return b2i(v.b), nil // `return false`: undetermined
+		},
+		func(env map[string]int64) int64 { return b2i(env["s"] >= env["st"] || env["c"] >= env["ft"]) })
+	c.Stats["assignments_evaluated"] += n
+	reportE9(c, rule, rel+".canReturnEarly#per-series", p.Pos(loop.Pos()), cx, err,
+		"a series counts as decided although neither its successes reached the success threshold nor its conflict failures the failure threshold (s = successes, c = conflict failures, f = all failures): which answer the request gets then depends on the order of the replica responses still outstanding")
+	// after the loop: true
+	okTail := false
+	if last, ok := cre.Body().List[len(cre.Body().List)-1].(*ast.ReturnStmt); ok && len(last.Results) == 1 && canon(last.Results[0]) == "true" {
+		okTail = true
+	}
+	c.Check(okTail, rule, rel+".canReturnEarly#all-decided", p.Pos(cre.Decl.Pos()), "early-return-shape", "canReturnEarly must answer true exactly when no series is undecided")
 }
